@@ -151,6 +151,16 @@ pub fn ring_verify(spec: &KeySpec, msg: &[u8], sig: &[u8]) -> bool {
 // ---- strategies -----------------------------------------------------------
 
 /// Cheap keys only (Ed25519): for high-volume properties.
+/// The same key material under its other key id (Ed25519: raw vs PKCS#8 import differ in the hash-algorithm list;
+/// RSA: the other PSS scheme). None for ECDSA.
+pub fn twin_of(k: &KeySpec) -> Option<KeySpec> {
+    match k {
+        KeySpec::Ed { seed, pkcs8 } => Some(KeySpec::Ed { seed: *seed, pkcs8: !*pkcs8 }),
+        KeySpec::Rsa { idx, sha512 } => Some(KeySpec::Rsa { idx: *idx, sha512: !*sha512 }),
+        KeySpec::Ec { .. } => None,
+    }
+}
+
 pub fn ed_key() -> BoxedStrategy<KeySpec> {
     (0u8..12, any::<bool>()).prop_map(|(seed, pkcs8)| KeySpec::Ed { seed, pkcs8 }).boxed()
 }
